@@ -132,6 +132,16 @@ class EomMonitor(Monitor):
                 lo1, hi1 = pending_fall_bounds(cpre)
                 lo2, hi2 = pending_fall_bounds(dict(cpre, eom=[b[:1] + (chan_end(cpre),) + b[2:] for b in cpre["eom"]]))
                 lo, hi = min(lo1, lo2), max(hi1, hi2)
+                # an idle period at a non-zero off-detuning is itself something that has to ramp down before ordinary
+                # operation resumes: its (smaller) accounted fall time is a lower bound too
+                last = next((s_ for s_ in reversed(cpre["slots"]) if s_["kind"] in ("pulse", "ddelay")), None)
+                if last is not None and last["kind"] == "ddelay" and last["tf"] == chan_end(cpre):
+                    from vmon.seqmon import fall as _fall
+                    f_dd = min(_fall(last, obj, True), _fall(last, obj, False))
+                    if f_dd > 0:
+                        ctx.count("disables_after_idle_at_off_detuning")
+                        lo = max(lo, last["tf"] + f_dd)
+                        hi = max(hi, lo)
                 end = chan_end(cpost)
                 e_lo = chan_end(cpre) + sched.roundup(lo - chan_end(cpre), clk, mn)
                 e_hi = chan_end(cpre) + sched.roundup(hi - chan_end(cpre), clk, mn)
